@@ -207,6 +207,14 @@ def rule_element_triple(chk, rid):
                 t = U(e)
                 kinds.append("identifier" if "identifier()" in t else "extension" if "extension" in t else "base64" if t in ("txt",) or "b64" in t else t)
             order_w = kinds
+        if isinstance(node, ast.JoinedStr) and order_w is None:
+            fvs = [v for v in node.values if isinstance(v, ast.FormattedValue)]
+            if len(fvs) == 3 and node.values and isinstance(node.values[0], ast.Constant) and str(node.values[0].value).startswith("["):
+                kinds = []
+                for v in fvs:
+                    t = U(v.value)
+                    kinds.append("identifier" if "identifier()" in t else "extension" if "extension" in t else "base64" if t in ("txt",) or "b64" in t else t)
+                order_w = kinds
     order_r = None
     for s in body_walk(de):
         if isinstance(s, ast.Assign) and isinstance(s.targets[0], ast.Tuple) and len(s.targets[0].elts) == 3:
